@@ -4,12 +4,14 @@ import (
 	"fmt"
 	"strings"
 
+	"github.com/vedadiyan/genql"
+
 	"verifharness/internal/fw"
 	"verifharness/internal/val"
 )
 
 func init() {
-	floor := []string{"raise.row", "raise.none", "raise.cte", "followup"}
+	floor := []string{"raise.row", "raise.none", "raise.cte", "followup", "reexec"}
 	for _, n := range richFormNames(true) {
 		floor = append(floor, "pos."+n)
 	}
@@ -81,6 +83,7 @@ func c19Faults(c *fw.Case) {
 	f := forms[c.Idx%len(forms)]
 	var d *richDoc
 	var sql string
+	var freeRows []any
 	N := 0
 	for try := 0; try < 6; try++ {
 		d = newRichDoc(c)
@@ -92,6 +95,7 @@ func c19Faults(c *fw.Case) {
 			c.Violate("fault-free-error", fmt.Sprintf("form %s fails even without a fault: %v", f.name, o.Describe()), map[string]any{"sql": sql, "doc": d.doc})
 			return
 		}
+		freeRows = o.Rows
 		N = faultCount()
 		if N >= 1 {
 			break
@@ -106,7 +110,14 @@ func c19Faults(c *fw.Case) {
 	for k := 1; k <= N; k++ {
 		used := d.fresh()
 		armFault(k, faultError)
-		o := Run(used, sql)
+		var o Outcome
+		q, nerr := newSafe(used, sql)
+		if nerr.Err != nil || nerr.Panic != nil {
+			o = nerr
+			q = nil
+		} else {
+			o = execBuilt(q)
+		}
 		hit := faultCount()
 		armFault(0, faultNone)
 		det := map[string]any{"sql": sql, "doc": d.doc, "fault_at_invocation": k, "invocations_fault_free": N, "position": f.name}
@@ -120,6 +131,19 @@ func c19Faults(c *fw.Case) {
 		}
 		if !followUp(c, used, d.doc, det) {
 			return
+		}
+		// the Query object itself stays usable: executed again without the
+		// fault it returns what the fault-free run returned
+		if q != nil && hit >= k {
+			again := execBuilt(q)
+			same := again.OK() && (val.SameSeq(again.Rows, freeRows) || (len(again.Rows) == 0 && len(freeRows) == 0) || (f.multiset || strings.Contains(sql, "JOIN")) && val.SameMultiset(again.Rows, freeRows))
+			c.Feature("reexec")
+			if !same {
+				det["reexec"] = again.Describe()
+				det["fault_free"] = val.Show(freeRows)
+				c.Violate("reexec-after-failure", fmt.Sprintf("position %s: after the failed Exec (fault at %d of %d) the same Query object, executed again without the fault, does not return the fault-free result", f.name, k, N), det)
+				return
+			}
 		}
 	}
 	c.Evals(N)
@@ -219,4 +243,22 @@ func c19TypeErr(c *fw.Case) {
 		return
 	}
 	c.Nontrivial(q.sql + "|" + val.Canon(d.doc))
+}
+
+// newSafe constructs a query, catching an escaped panic; the Outcome carries
+// the error / panic of New (Stage "new").
+func newSafe(doc map[string]any, sql string) (q *genql.Query, out Outcome) {
+	defer func() {
+		if r := recover(); r != nil {
+			out.Panic = r
+			q = nil
+		}
+	}()
+	out.Stage = "new"
+	q, err := genql.New(doc, sql)
+	if err != nil {
+		out.Err = err
+		return nil, out
+	}
+	return q, out
 }
